@@ -1,6 +1,7 @@
 import ImathVerif.Lemmas.C12Wrap
 import ImathVerif.Lemmas.C12Post
 import ImathVerif.Lemmas.C12Angles
+import ImathVerif.Lemmas.C12Eigen
 import Mathlib.Analysis.SpecialFunctions.Complex.Arg
 import Mathlib.Analysis.SpecialFunctions.Sqrt
 /-!
@@ -648,6 +649,31 @@ theorem jacobiSVD_sweeps_tol0_invariant4 {sqrt : α → α} (hs : SqrtSpec sqrt)
     obtain ⟨a, b, c⟩ := svdApply_invariant4 (stepOK_tol0 hs 4 jk.1 jk.2 h.1 h.2 st)
     obtain ⟨a', b', c'⟩ := ih (fun q hq => hp q (List.mem_cons_of_mem _ hq)) (twoSidedJacobiRotation 0 sqrt jk.1 jk.2 st).2
     exact ⟨a'.trans a, b'.trans b, c'.trans c⟩
+
+/-! ### the symmetric eigen solver: one `jacobiRotation` -/
+
+/-- ONE rotation of `jacobiRotation` (eigen solver, which keeps only the upper triangle of the symmetric `A`):
+given parameters `(t, c, s, tau)` that rotate the 2×2 block `[[x, y], [y, z]]` onto `diag (x - t*y, z + t*y)`
+(`EigDiag`; e.g. `s = t*c`, `c²(1+t²) = 1`, `s*tau = 1 - c`, `y t² + (z-x) t - y = 0`: `eigDiag_of`),
+`V'·sym(A')·V'ᵀ = V·sym(A)·Vᵀ` and `V'·V'ᵀ = V·Vᵀ` — 3×3 and 4×4, every pair; hence for any number of rotations. -/
+theorem jacobiRotation_invariant {α : Type} [CommRing α] (j k : Nat) (hjk : j < k) (p : EigAngles α) (st : EigState α)
+    (h : EigDiag p (st.A j j) (st.A j k) (st.A k k)) :
+    (k < 3 → toM 3 (eigApply 3 j k p st).V * symM 3 (eigApply 3 j k p st).A * (toM 3 (eigApply 3 j k p st).V)ᵀ =
+        toM 3 st.V * symM 3 st.A * (toM 3 st.V)ᵀ ∧
+      toM 3 (eigApply 3 j k p st).V * (toM 3 (eigApply 3 j k p st).V)ᵀ = toM 3 st.V * (toM 3 st.V)ᵀ) ∧
+    (k < 4 → toM 4 (eigApply 4 j k p st).V * symM 4 (eigApply 4 j k p st).A * (toM 4 (eigApply 4 j k p st).V)ᵀ =
+        toM 4 st.V * symM 4 st.A * (toM 4 st.V)ᵀ ∧
+      toM 4 (eigApply 4 j k p st).V * (toM 4 (eigApply 4 j k p st).V)ᵀ = toM 4 st.V * (toM 4 st.V)ᵀ) :=
+  ⟨fun hk => eigApply_invariant3 j k hjk hk p st h, fun hk => eigApply_invariant4 j k hjk hk p st h⟩
+
+/-- the natural description of the parameters implies `EigDiag` -/
+theorem jacobiRotation_parameters {α : Type} [CommRing α] {p : EigAngles α} {x y z : α} (hs : p.s = p.t * p.c)
+    (hc : p.c * p.c * (1 + p.t * p.t) = 1) (htau : p.s * p.tau = 1 - p.c) (ht : y * p.t * p.t + (z - x) * p.t - y = 0) :
+    EigDiag p x y z := eigDiag_of hs hc htau ht
+
+/-- non-vacuity: `[[0, 12], [12, 7]]` with `t = 3/4`, `c = 4/5`, `s = 3/5`, `tau = 1/3` -/
+example : EigDiag (⟨3/4, 4/5, 3/5, 1/3⟩ : EigAngles ℚ) 0 12 7 :=
+  eigDiag_of (by norm_num) (by norm_num) (by norm_num) (by norm_num)
 
 /-! ### post-passes: sign fix-up, sorting, forcePositiveDeterminant preserve `U·diag(S)·Vᵀ`, `U·Uᵀ`, `V·Vᵀ` -/
 
